@@ -23,7 +23,7 @@ def INV_buf(sp):
                suffix_of(sp._buffer.content, sp._before.content))
 
 
-def spawn_shape(b, name='spawn', cls=SPAWNBASE, extra=None, loop=False):
+def spawn_shape(b, name='spawn', cls=SPAWNBASE, extra=None, loop=False, defaults=False):
     """The part of a spawn object that the matching machinery reads or writes."""
     kind = b.choice('mode', ['b', 's'])
     fields = dict(
@@ -34,21 +34,20 @@ def spawn_shape(b, name='spawn', cls=SPAWNBASE, extra=None, loop=False):
         before=b.any('before0'), after=b.any('after0'), match=b.any('match0'), match_index=b.any('match_index0'),
     )
     if loop:
-        fields.update(
-            searchwindowsize=b.opt('spawn.searchwindowsize', lambda: b.int('spawn.searchwindowsize')),
-            maxread=b.int('maxread'),
-            delayafterread=b.opt('delayafterread', lambda: b.real('delayafterread')),
-            timeout=b.opt('spawn.timeout', lambda: b.real('spawn.timeout')))
+        fields.update(maxread=b.int('maxread'),
+                      delayafterread=b.opt('delayafterread', lambda: b.real('delayafterread')))
+    if defaults:
+        fields.update(searchwindowsize=b.opt('spawn.searchwindowsize', lambda: b.int('spawn.searchwindowsize')),
+                      timeout=b.opt('spawn.timeout', lambda: b.real('spawn.timeout')))
     if extra:
         fields.update(extra(b, kind))
     return b.obj(name, cls, closed=False, **fields), kind
 
 
-def searcher_shape(b, lookback=None):
+def searcher_shape(b, lookback=False):
     """An object satisfying the searcher interface (searcher_string / searcher_re refine it)."""
     fields = dict(eof_index=b.int('eof_index'), timeout_index=b.int('timeout_index'),
                   start=b.any('start0'), end=b.any('end0'), match=b.any('smatch0'))
-    has_ls = b.choice('searcher.longest_string?', ['absent', 'present'])
-    if has_ls == 'present':
+    if lookback and b.choice('searcher.longest_string?', ['absent', 'present']) == 'present':
         fields['longest_string'] = b.int('longest_string')
     return b.obj('searcher', 'iface:searcher', closed=True, **fields)
